@@ -43,6 +43,8 @@ theorem bit0_and (m : BitVec 32) (h : m.getLsbD 0 = false) : m &&& 1#32 = 0#32 :
 theorem sub_succ (pc pp : BitVec 32) : pc + 1#32 - pp = (pc - pp) + 1#32 := by bv_decide
 theorem add1_sub (pc : BitVec 32) : pc + 1#32 - pc = 1#32 := by bv_decide
 theorem add5_sub (pc : BitVec 32) : pc + 5#32 - pc = 5#32 := by bv_decide
+theorem add_sub_comm (a b c : BitVec 32) : a + b - c = (a - c) + b := by bv_decide
+theorem add_sub_sub5 (a b : BitVec 32) : a + b - (a - 5#32) = 5#32 + b := by bv_decide
 theorem sub_sub5 (pc : BitVec 32) : pc - (pc - 5#32) = 5#32 := by bv_decide
 
 /-- The conversion of one operand: the decoder gives back the original bytes, the stored byte 4 is 00/FF again, and the byte
